@@ -420,39 +420,14 @@ func checkC12(p *core.Program, r *core.Report) {
 		if kind == 1 { // IDENTIFIER
 			gated := false
 			for _, ce := range core.ControllingConds(ret.Block()) {
-				bo, ok := ce.Cond.(*ssa.BinOp)
-				if !ok {
-					continue
-				}
-				if bo.Op == token.EQL && ce.Taken {
-					// topLevel == validTopLevel, with topLevel lower-cased
-					lower := false
-					for v := range core.BackSlice(bo.X, func(c *ssa.Call) bool { return true }) {
-						if c, ok := v.(*ssa.Call); ok {
-							if o := core.CalleeObj(&c.Call); o != nil && core.ObjName(o) == "strings.ToLower" {
-								lower = true
-							}
-						}
-					}
-					fromList := false
-					for v := range core.BackSlice(bo.Y, nil) {
-						if fa, ok := v.(*ssa.FieldAddr); ok && core.FieldAddrVar(fa).Name() == "identifierTopLevels" {
-							fromList = true
-						}
-					}
-					if lower && fromList {
-						gated = true
-					}
-				}
-				// identifierTopLevels == nil: no gate requested
-				if core.IsNilConst(bo.Y) && ((bo.Op == token.EQL && ce.Taken) || (bo.Op == token.NEQ && !ce.Taken)) {
+				if c12Gate(ce.Cond, ce.Taken, nil, 0) {
 					gated = true
 				}
 			}
 			r.Check(gated, "R3", key+"/identifier-gated", p.Pos(ret.Pos()), "IDENTIFIER only for an allowed (lower-cased) top level, or when no list is given", "scanIdentifier returns IDENTIFIER without the allowed-top-level test: e-mail addresses and mentions are evaluated as expressions")
 		}
 	}
-	r.Require("scanIdentifier_returns", nRet, 3)
+	r.Require("scanIdentifier_returns", nRet, 2)
 
 	// ------------------------------------------------------------------ R4
 	c11QuotePair(p, r, "R4")
@@ -660,4 +635,111 @@ func c12RawTemplate(p *core.Program, r *core.Report) {
 			fmt.Sprintf("the raw template text of %s flows into %s without passing the scanner: '@@' is not unescaped there and the result differs from what Template produces for the same text", core.FuncName(prm.Parent()), strings.Join(bad, "; ")))
 	}
 	r.Require("raw_template_parameters", n, 3)
+}
+
+// c12Gate: the branch edge (cond, taken) establishes "the lower-cased top level is in identifierTopLevels, or no list
+// was given". Either directly (topLevel == validTopLevel taken, or identifierTopLevels == nil), or through a
+// boolean helper of the package all of whose true-returns are gated the same way (args maps the helper's parameters
+// to the values it was called with).
+func c12Gate(cond ssa.Value, taken bool, args map[*ssa.Parameter]ssa.Value, depth int) bool {
+	if un, ok := cond.(*ssa.UnOp); ok && un.Op == token.NOT {
+		return c12Gate(un.X, !taken, args, depth)
+	}
+	lowered := func(v ssa.Value) bool {
+		for x := range core.BackSlice(v, func(c *ssa.Call) bool { return true }) {
+			switch y := x.(type) {
+			case *ssa.Call:
+				if o := core.CalleeObj(&y.Call); o != nil && core.ObjName(o) == "strings.ToLower" {
+					return true
+				}
+			case *ssa.Parameter:
+				if a, ok := args[y]; ok {
+					for z := range core.BackSlice(a, func(c *ssa.Call) bool { return true }) {
+						if c, ok := z.(*ssa.Call); ok {
+							if o := core.CalleeObj(&c.Call); o != nil && core.ObjName(o) == "strings.ToLower" {
+								return true
+							}
+						}
+					}
+				}
+			}
+		}
+		return false
+	}
+	fromList := func(v ssa.Value) bool {
+		for x := range core.BackSlice(v, nil) {
+			if fa, ok := x.(*ssa.FieldAddr); ok && core.FieldAddrVar(fa).Name() == "identifierTopLevels" {
+				return true
+			}
+		}
+		return false
+	}
+	switch c := cond.(type) {
+	case *ssa.BinOp:
+		if c.Op == token.EQL && taken && ((lowered(c.X) && fromList(c.Y)) || (lowered(c.Y) && fromList(c.X))) {
+			return true
+		}
+		// identifierTopLevels == nil: no gate requested
+		if (core.IsNilConst(c.Y) && fromList(c.X)) || (core.IsNilConst(c.X) && fromList(c.Y)) {
+			if (c.Op == token.EQL && taken) || (c.Op == token.NEQ && !taken) {
+				return true
+			}
+		}
+	case *ssa.Call:
+		h := c.Call.StaticCallee()
+		if h == nil || h.Blocks == nil || depth > 1 || !taken {
+			return false
+		}
+		bind := map[*ssa.Parameter]ssa.Value{}
+		for i, fp := range h.Params {
+			if i < len(c.Call.Args) {
+				bind[fp] = c.Call.Args[i]
+			}
+		}
+		all := false
+		for _, ret := range core.Returns(h) {
+			if len(ret.Results) != 1 {
+				return false
+			}
+			var trueBlocks []*ssa.BasicBlock
+			switch v := ret.Results[0].(type) {
+			case *ssa.Const:
+				if v.Value != nil && v.Value.String() == "true" {
+					trueBlocks = append(trueBlocks, ret.Block())
+				}
+			case *ssa.Phi:
+				for i, e := range v.Edges {
+					if k, isC := e.(*ssa.Const); isC && k.Value != nil && k.Value.String() == "false" {
+						continue
+					}
+					if k, isC := e.(*ssa.Const); !isC || k.Value == nil || k.Value.String() != "true" {
+						return false
+					}
+					trueBlocks = append(trueBlocks, v.Block().Preds[i])
+				}
+			default:
+				return false
+			}
+			for _, tb := range trueBlocks {
+				ok := false
+				conds := core.ControllingConds(tb)
+				if iff, isIf := tb.Instrs[len(tb.Instrs)-1].(*ssa.If); isIf && tb.Succs[0] != tb.Succs[1] {
+					if _, isPhi := ret.Results[0].(*ssa.Phi); isPhi {
+						conds = append(conds, core.CondEdge{Cond: iff.Cond, Taken: tb.Succs[0] == ret.Block(), If: iff})
+					}
+				}
+				for _, ce := range conds {
+					if c12Gate(ce.Cond, ce.Taken, bind, depth+1) {
+						ok = true
+					}
+				}
+				if !ok {
+					return false
+				}
+				all = true
+			}
+		}
+		return all
+	}
+	return false
 }
